@@ -43,6 +43,22 @@ CLAIMS = {
         note="Checker, transformer and custom interpreter behaviour are universally quantified functions; Go interface dispatch "
              "(Walkable/StaticCheckable/Transformable) is transcribed by hand.",
         technique="Lean 4 theorems by mutual structural induction over trees against independent specifications + differential correspondence"),
+    "C14": dict(
+        text="PARTIAL by nature. Machine-checked (Lean 4): in an interleaving model where each run steps only its own local state over "
+             "a read-only graph, every schedule (fair or not) leaves each run with exactly its solo result (c14_noninterference, "
+             "c14_noninterference_complete); the general frame-rule form over a shared heap with disjoint write footprints "
+             "(c14_footprint, with c14_footprint_needed showing the hypothesis is necessary); atomic fetch-add gives pairwise distinct "
+             "parser indexes under any interleaving while a load/store pair does not (c14_indices_distinct, c14_nonatomic_duplicates). "
+             "The premises are tied to the source on every run by c14_facts (decide, on facts regenerated with go/types): the only "
+             "package-variable access is the atomic counter in Memoize at construction time, no parse-time write goes through a "
+             "variable captured from constructor scope, every parse-time write's root is a per-run object (context, reader, file, "
+             "per-call sequence, result nodes, cache). NOT proved: the Go memory model, real goroutine schedules, that the static "
+             "facts entail the footprint hypothesis for the real program. Runtime support: the C14 stream (N goroutines x shared "
+             "grammar x success/failure inputs x concurrent construction, results compared with the sequential run and the model) is "
+             "also run from a -race build; a race report is a violation with the report as replay.",
+        note="The race detector and the scheduler are runtime; the fact extractor (go/types, call graph over-approximation, no alias "
+             "analysis, blind to the standard library) is trusted.",
+        technique="Lean 4 non-interference theorems over an interleaving model + decide on regenerated write/capture facts + race-detector workload"),
     "C15": dict(
         text="Machine-checked proof (Lean 4) that the slice-heap/map-heap model of IntSet/IntMap refines the plain set/map "
              "specification for every history and every append growth policy (c15_refine, c15_sorted, c15_grow_irrelevant), tied to "
